@@ -27,6 +27,7 @@ CONSTANTS
   AdminOps,       \* BOOLEAN: breaker, resume, fee withdrawal, forced recovery
   ResumeScales,   \* e.g. {"same", "down"}: totals an admin supplies on resume
   StartHalted,    \* BOOLEAN: begin right after instantiate (halted) or after an identity resume
+  Extras,         \* subset of {"wrongsender", "stray", "matrix", "slippage", "mintto", "direct"}: extra negative / variant calls
   MaxTime, MaxBatches, MaxSeq, MaxN, MaxPk,
   EmitTests       \* BOOLEAN: number transitions and print them (run with -workers 1)
 
@@ -63,11 +64,12 @@ Init ==
 
 ---------------------------------------------------------------------------
 \* ------------------------------------------------------------------ the call alphabet
-StakeCall(u, a, kind, fails) ==
+StakeCallX(u, a, kind, fails, expected, other) ==
   [m |-> "liquid_stake", s |-> u, funds |-> <<<<NatD, a>>>>,
-   mint_to |-> IF kind = "native" THEN NatOf(u) ELSE "", to_native |-> "none", expected |-> NoAmt,
+   mint_to |-> IF kind = "native" THEN NatOf(u) ELSE IF kind = "other" THEN other ELSE "", to_native |-> "none", expected |-> expected,
    ibc_fail |-> fails, rclass |-> IF kind = "native" THEN "native" ELSE "protocol",
-   r |-> IF kind = "native" THEN NatOf(u) ELSE u, skind |-> "eoa"]
+   r |-> IF kind = "native" THEN NatOf(u) ELSE IF kind = "other" THEN other ELSE u, skind |-> "eoa"]
+StakeCall(u, a, kind, fails) == StakeCallX(u, a, kind, fails, NoAmt, "")
 UnstakeCall(u, a) == [m |-> "liquid_unstake", s |-> u, funds |-> <<<<LstD, a>>>>]
 SubmitCall(u) == [m |-> "submit_batch", s |-> u]
 WithdrawCall(u, b) == [m |-> "withdraw", s |-> u, b |-> b]
@@ -86,7 +88,7 @@ TimeCall(t) == [m |-> "time", t |-> t]
 NatFundCall(a, x) == [m |-> "nat_fund", a |-> a, x |-> x]
 
 FailSeqs == {<< >>} \cup {<<i>> : i \in SubmitFails}
-Deadlines == {w.c.batches[b].due : b \in BatchIds(w.c)} \ {NoAmt}
+Deadlines == ({w.c.batches[b].due : b \in BatchIds(w.c)} \cup {w.c.minTime}) \ {NoAmt}
 \* the clock only jumps to the instants the timing clauses talk about: one second before, exactly at
 \* and one second after each stored deadline
 TimePoints == {t \in UNION {{d - 1, d, d + 1} : d \in Deadlines} : t > w.now /\ t <= T0 + MaxTime}
@@ -129,6 +131,12 @@ Do(call) ==
      ELSE sid' = 0
 
 Stake        == \E u \in Users, a \in StakeAmts, k \in RcvKinds, f \in FailSeqs : Do(StakeCall(u, a, k, f))
+\* expected_mint_amount exactly met / one above; minting to another protocol-chain account
+ExactMint(a) == LET sweep == w.c.L = 0 /\ w.c.N # 0 IN MintAmount(IF sweep THEN 0 ELSE w.c.N, w.c.L, a)
+StakeVariants == \/ /\ "slippage" \in Extras
+                    /\ \E u \in Users, a \in StakeAmts, d \in {0, 1} : Do(StakeCallX(u, a, "self", << >>, ExactMint(a) + d, ""))
+                 \/ /\ "mintto" \in Extras
+                    /\ \E u \in Users, a \in StakeAmts, o \in (Users \cup {"c1"}) : o # u /\ Do(StakeCallX(u, a, "other", << >>, NoAmt, o))
 Unstake      == \E u \in Users, a \in UnstakeAmts : Bal(w.bank, u, LstD) >= a /\ Do(UnstakeCall(u, a))
 Submit       == \E u \in Principals : Do(SubmitCall(u))
 Withdraw_    == \E u \in Users, b \in BatchIds(w.c) : Do(WithdrawCall(u, b))
@@ -137,6 +145,30 @@ ReturnBatch  == \E b \in Outstanding(w), k \in Returns :
                   LET e == w.c.batches[b].expected
                       a == CASE k = "exact" -> e [] k = "short" -> e - 1 [] k = "long" -> e + 1
                   IN a > 0 /\ Do(UnstakedCall(b, a, Staker))
+\* deliveries that must be refused: the other hook account, a batch that is not Submitted (pending, or
+\* already Received - a second delivery), direct calls by ordinary accounts
+WrongSender  == "wrongsender" \in Extras /\
+                  \/ \E a \in RewardAmts : Do(RewardsCall(a, Staker))
+                  \/ \E b \in BatchIds(w.c) : Do(UnstakedCall(b, 1, Collector))
+                  \/ \E b \in BatchIds(w.c) \ Outstanding(w) : Do([UnstakedCall(b, 2, Staker) EXCEPT !.limited = FALSE])
+Direct       == "direct" \in Extras /\ \E u \in Principals :
+                  \/ Do([m |-> "receive_rewards", s |-> u, funds |-> << >>])
+                  \/ \E b \in BatchIds(w.c) : Do([m |-> "receive_unstaked_tokens", s |-> u, b |-> b, funds |-> << >>])
+\* callbacks that do not belong to a packet in flight: another channel (even for a tracked sequence), an unknown sequence
+Stray_       == "stray" \in Extras /\ \E k \in {"ok", "err", "timeout"} :
+                  \/ \E p \in w.c.pk : Do([m |-> "stray", channel |-> "channel-9", seq |-> p.seq, kind |-> k])
+                  \/ Do([m |-> "stray", channel |-> Channel, seq |-> 77, kind |-> k])
+\* the admin-only messages tried by every principal
+\* ("matrix": only by principals that are not the admin - all refused, no new states; "matrixadmin": by everyone)
+Matrix       == ("matrix" \in Extras \/ "matrixadmin" \in Extras) /\ \E u \in Principals :
+                  /\ ("matrixadmin" \in Extras \/ u # w.c.admin)
+                  /\ \/ Do([m |-> "add_validator", s |-> u, v |-> "val3", vvalid |-> TRUE])
+                     \/ Do([m |-> "remove_validator", s |-> u, v |-> "val1", vvalid |-> TRUE])
+                     \/ Do([m |-> "update_config", s |-> u, up |-> [period |-> [secs |-> BatchPeriod + 1]]])
+                     \/ Do([m |-> "update_config", s |-> u, up |-> [feecfg |-> [fee |-> FeeRate, treasury |-> IF w.c.cfg.treasury = "" THEN "treasury" ELSE "", valid |-> TRUE]]])
+                     \/ Do([m |-> "transfer_ownership", s |-> u, to |-> "admin2", tvalid |-> TRUE])
+                     \/ Do([m |-> "revoke_ownership_transfer", s |-> u])
+                     \/ Do([m |-> "accept_ownership", s |-> u])
 TopUp        == "long" \in Returns /\ Get(w.nat.bal, Staker) < MaxN /\ Do(NatFundCall(Staker, 1))
 Relay        == \E p \in w.ibc.fly, o \in Outcomes : Do(AckCall(p.seq, o))
 Recover_     == \E u \in Principals, rcv \in {""} \cup {NatOf(x) : x \in Users}, f \in FailSeqs :
@@ -155,8 +187,8 @@ Resume       == AdminOps /\ w.c.stopped /\ \E u \in Principals, k \in ResumeScal
                   IN (w.c.L = 0 \/ n > 0) /\ Do(ResumeCall(u, n, w.c.L, w.c.rewards))
 Tick         == \E t \in TimePoints : Do(TimeCall(t))
 
-Next == Stake \/ Unstake \/ Submit \/ Withdraw_ \/ Rewards \/ ReturnBatch \/ TopUp \/ Relay \/ Recover_
-        \/ Forced \/ FeeWithdraw_ \/ Breaker \/ Resume \/ Tick
+Next == Stake \/ StakeVariants \/ Unstake \/ Submit \/ Withdraw_ \/ Rewards \/ ReturnBatch \/ WrongSender \/ Direct \/ TopUp
+        \/ Relay \/ Stray_ \/ Recover_ \/ Forced \/ FeeWithdraw_ \/ Breaker \/ Resume \/ Matrix \/ Tick
 
 Spec == Init /\ [][Next]_vars
 
